@@ -113,6 +113,35 @@ Proof.
   rewrite E in Ed. rewrite E' in Ed'.
   exact (tamper_changes_spec_digest_thm t t' i ht x x' d d' Hw Hw' Hx Hx' Hk Hht Hall Hd Ed Ed').
 Qed.
+
+(* the hash type itself is committed (BIP143 inputs, EVERY pair of hash types): the digests the library computes for
+   one input under two different hash types differ, or H collides *)
+Theorem hash_type_changes_digest_thm t i ht ht' x d d' :
+  wf_stx t -> nth_error (st_ins t) i = Some x ->
+  k_segwit (si_kind x) = true -> st_segwit t = true ->
+  0 <= ht < 2 ^ 32 -> 0 <= ht' < 2 ^ 32 -> ht <> ht' ->
+  lib_digest H H160 t i ht = Some d -> lib_digest H H160 t i ht' = Some d' ->
+  d <> d' \/ collision H.
+Proof.
+  intros Hw Hx Hk Hsw Hht Hht' Hne Ed Ed'.
+  assert (Hs : hash_type_supported x ht) by (split; [exact Hht|intros E; congruence]).
+  assert (Hs' : hash_type_supported x ht') by (split; [exact Hht'|intros E; congruence]).
+  destruct (digest_ok H H160 H160_len t i ht x Hw Hx (fun _ => Hsw) Hs) as (E & _).
+  destruct (digest_ok H H160 H160_len t i ht' x Hw Hx (fun _ => Hsw) Hs') as (E' & _).
+  rewrite E in Ed. rewrite E' in Ed'. clear E E'.
+  unfold spec_digest, spec_preimage in Ed, Ed'. rewrite Hx, Hk in Ed, Ed'.
+  destruct (spec_bip143_preimage H H160 t i ht) as [p|] eqn:Ep;
+    [|unfold spec_bip143_preimage in Ep; rewrite Hx in Ep; discriminate].
+  destruct (spec_bip143_preimage H H160 t i ht') as [p'|] eqn:Ep';
+    [|unfold spec_bip143_preimage in Ep'; rewrite Hx in Ep'; discriminate].
+  assert (d = H p) by congruence. assert (d' = H p') by congruence. subst d d'.
+  destruct (bytes_eq_dec (H p) (H p')) as [Eh|Eh]; [|left; exact Eh].
+  destruct (bytes_eq_dec p p') as [Epp|Epp]; [|right; exists p, p'; split; assumption].
+  exfalso. subst p'.
+  destruct (bip143_commits H H160 H_len H160_len t t i i ht ht' x x p Hw Hw Hx Hx Hht Hht' Ep Ep')
+    as (_ & _ & _ & _ & _ & _ & _ & Eht & _).
+  exact (Hne Eht).
+Qed.
 End Commit.
 
 Close Scope Z_scope.
